@@ -83,6 +83,30 @@ def run(ck):
         if cdiffs and not ck.violations:
             ck.fail_unwitnessed("correspondence Client/Client.v ~ client.Client: %d observed traces rejected" % len(cdiffs),
                                 sum((cscn.get(l.split()[1], []) + [l] for l in cdiffs[:3]), []))
+    # transport stage: on one connection the wire carries the packets in the order in which Send accepted them, whatever their
+    # sizes and whether they were buffered or flushed (packet.Encoder / mercury writer / BaseConn against Stream/EncStream.v,
+    # Transport/BaseConn.v; clauses c03_wire_is_concat, c03_flushed_after) — seed C15-10: a large PUBLISH overtaking buffered small ones
+    if ck.build_harness("stream"):
+        os.environ["STREAM_FAMILY"] = "enc"
+        try:
+            wpath, _ = ck.harness("c03", out_name="stream_for_c15.txt")
+        finally:
+            os.environ.pop("STREAM_FAMILY", None)
+        wlines = ck.model("stream", "c03", wpath)
+        wex = open(wpath).read().splitlines()
+        wcases = {}
+        for l in wex:
+            w = l.split(" ", 2)
+            if len(w) >= 2 and w[0] in ("case", "impl"):
+                wcases.setdefault(w[1], []).append(l)
+        for l in wex:
+            w = l.split()
+            if l.startswith("direct ") and " FAIL " in l and w[1] in ("c03_wire_is_concat", "c03_flushed_after"):
+                ck.fail_input("wire_order", l, wcases.get(w[2], []) + [l])
+        for l in wlines:
+            w = l.split()
+            if l.startswith("propfail ") and len(w) >= 3 and w[2] in ("c03_wire_is_concat", "c03_flushed_after"):
+                ck.fail_input("wire_order", l, wcases.get(w[1], []) + [l])
     if ck.tier == "thorough":
         ck.coqchk(["GM.Props.C15"])
     ck.evaluations = sys_eval + ck.stats.get("model_cases", 0)
